@@ -312,6 +312,18 @@ fn decorate(cs: &CallSet, rows: &[Vec<Cls>], which: &str) -> (CallSet, Vec<Vec<C
                 rows.push(r.clone());
             }
         }
+        "hundreds-of-alleles" => {
+            // records declaring 300 ALT alleles: a genotype that names allele 10, 12, 100, 255, 256 or 257
+            // is multiallelic whatever its index is modulo a power of two or its first digit
+            static ALTS: std::sync::OnceLock<Vec<&'static str>> = std::sync::OnceLock::new();
+            let alts = ALTS.get_or_init(|| (0..300).map(|i| &*Box::leak(format!("{}{}", ["C", "G", "T"][i % 3], "A".repeat(1 + i / 3)).into_boxed_str())).collect());
+            let spellings = ["0/10", "1|12", "0/100", "0/256", "257|0", "256/257", "1/255", "0|11", "10/0", "0/20"];
+            for (k, r) in all_rows(s, &Cls::ALL).iter().enumerate() {
+                let gts: Vec<String> = r.iter().enumerate().map(|(j, c)| if *c == Cls::Multi { spellings[(j + k) % spellings.len()].to_string() } else { c.spell(j + k).to_string() }).collect();
+                cs.records.push(Record { chrom: 1, pos: 10_000 + k, alts: alts.clone(), gts, decorated: false });
+                rows.push(r.clone());
+            }
+        }
         "all-phased" => {
             for r in cs.records.iter_mut() {
                 for g in r.gts.iter_mut() {
@@ -324,11 +336,11 @@ fn decorate(cs: &CallSet, rows: &[Vec<Cls>], which: &str) -> (CallSet, Vec<Vec<C
     (cs, rows)
 }
 
-const DECORATIONS: [&str; 8] = ["info-format-fields", "two-contigs", "monomorphic-records", "multi-alt-records", "all-missing-records", "all-phased", "monomorphic-with-missing", "symbolic-and-indel-alleles"];
+const DECORATIONS: [&str; 9] = ["info-format-fields", "two-contigs", "monomorphic-records", "multi-alt-records", "all-missing-records", "all-phased", "monomorphic-with-missing", "symbolic-and-indel-alleles", "hundreds-of-alleles"];
 
 pub fn run(tier: Tier) -> i32 {
     let mut rep = Report::new("C01", tier, "exploration");
-    rep.rule = "genotype class per sample in {0,1,2 ALT, missing, multiallelic}; sample maps = every assignment of each sample to 'unselected' or population 0..3 (labels in first-use order). L1 (real site::Reader fed by an in-memory genotype source): every (map, row) single-record case, every 2-record sequence (S=3), all rows in one stream, unselected samples with ploidy errors; L2 (real binary): one-record VCFs, one VCF with every row, containers, explicit --precision, eight decorations (extra INFO/FORMAT fields, two contigs, monomorphic records without and with missing calls, multi-ALT, all-missing, all-phased, symbolic / indel / '*' alleles). Oracle: reference create from the classes; stdout must be '#SHAPE=<..>' + exact integers. Non-trivial = a case with a counted and a skipped record, or >=2 populations of unequal size.".into();
+    rep.rule = "genotype class per sample in {0,1,2 ALT, missing, multiallelic}; sample maps = every assignment of each sample to 'unselected' or population 0..3 (labels in first-use order). L1 (real site::Reader fed by an in-memory genotype source): every (map, row) single-record case, every 2-record sequence (S=3), all rows in one stream, unselected samples with ploidy errors; L2 (real binary): one-record VCFs, one VCF with every row, containers, explicit --precision, nine decorations (records with 300 ALT alleles and genotypes naming alleles 10 .. 257, extra INFO/FORMAT fields, two contigs, monomorphic records without and with missing calls, multi-ALT, all-missing, all-phased, symbolic / indel / '*' alleles). Oracle: reference create from the classes; stdout must be '#SHAPE=<..>' + exact integers. Non-trivial = a case with a counted and a skipped record, or >=2 populations of unequal size.".into();
 
     let s_max = tier.pick(4, 5);
     let mut jobs: Vec<(Vec<Option<usize>>, Vec<Vec<Cls>>)> = Vec::new();
@@ -480,7 +492,9 @@ pub fn run(tier: Tier) -> i32 {
         for d in DECORATIONS {
             let (cs, r2) = decorate(&all, &rows, d);
             cjobs.push((map.clone(), cs.clone(), r2.clone(), Container::Vcf, d.to_string()));
-            cjobs.push((map.clone(), cs, r2, Container::Bcf, d.to_string()));
+            // (allele indices beyond 62 need 16-bit genotype vectors in BCF, which the BCF dependency
+            // cannot read at all - a recorded finding of C17; that decoration runs on the text containers)
+            cjobs.push((map.clone(), cs, r2, if d == "hundreds-of-alleles" { Container::VcfGz } else { Container::Bcf }, d.to_string()));
         }
     }
     let res = par_map(cjobs.len(), |i| {
@@ -501,7 +515,7 @@ pub fn run(tier: Tier) -> i32 {
         name: "cli: sfs create -s".into(),
         evaluations: cjobs.len() as u64,
         nontrivial: nt,
-        note: format!("S={s}: {} maps x ({} one-record VCFs + every-row call set in 4 containers on stdin and by path under its conventional file name + the rows complete among the selected samples under --strict / --threads / verbosity / precision flag combinations in vcf and bcf + the assignment as a samples file with LF / CRLF endings with and without a final line end + explicit --precision 0/1/6/17 + verbosity flags -q/-v/-vv/-vvv + a list naming one sample twice (same label; and with another label: error, first- or last-label assignment) + the list grouped by population (order unlike the column order) + 8 decorations in vcf and bcf)", maps.len(), rows.len()),
+        note: format!("S={s}: {} maps x ({} one-record VCFs + every-row call set in 4 containers on stdin and by path under its conventional file name + the rows complete among the selected samples under --strict / --threads / verbosity / precision flag combinations in vcf and bcf + the assignment as a samples file with LF / CRLF endings with and without a final line end + explicit --precision 0/1/6/17 + verbosity flags -q/-v/-vv/-vvv + a list naming one sample twice (same label; and with another label: error, first- or last-label assignment) + the list grouped by population (order unlike the column order) + 9 decorations in vcf and bcf)", maps.len(), rows.len()),
         exhaustive: true,
         extra: vec![],
     });
@@ -569,6 +583,43 @@ pub fn run(tier: Tier) -> i32 {
             note: format!("{n_long} records over every class row of 3 samples in 2 populations with a run of {} consecutive records without any called sample (./., .|., FORMAT without GT), in 4 containers (the compressed ones span many BGZF blocks) at the default thread count and with --threads 1 and 3; every printed value compared", n_long - 10_000),
             exhaustive: true,
             extra: vec![("records".into(), J::u(n_long))],
+        });
+    }
+    // more records in one cell than a single-precision counter can hold (thorough only: a 540 MB stream)
+    if tier.thorough() {
+        use std::io::Write;
+        let n = (1usize << 24) + 4;
+        let path = scratch.path(".allsites.vcf");
+        let ok = (|| -> std::io::Result<()> {
+            let mut f = std::io::BufWriter::new(std::fs::File::create(&path)?);
+            f.write_all(b"##fileformat=VCFv4.3\n##contig=<ID=chr1>\n##FORMAT=<ID=GT,Number=1,Type=String,Description=\"Genotype\">\n#CHROM\tPOS\tID\tREF\tALT\tQUAL\tFILTER\tINFO\tFORMAT\ts0\n")?;
+            for i in 0..n {
+                writeln!(f, "chr1\t{}\t.\tA\tC\t.\t.\t.\tGT\t0/0", i + 1)?;
+            }
+            for (i, g) in ["0/1", "1|0", "0/1", "1/1", "1|1"].iter().enumerate() {
+                writeln!(f, "chr1\t{}\t.\tA\tC\t.\t.\t.\tGT\t{g}", n + i + 1)?;
+            }
+            f.flush()
+        })();
+        if ok.is_ok() {
+            let o = crate::cli::run_sfs_env(&["create", path.to_str().unwrap()], Stdin::Null, &scratch, &[], &crate::cli::Limits { wall_s: 600, mem_bytes: 16 << 30 });
+            let expect = format!("#SHAPE=<3>\n{n} 3 2\n");
+            if !o.ok() || o.stdout_str() != expect {
+                rep.violation(
+                    "C01|cli|create-wrong|vcf|many-records-in-one-cell".to_string(),
+                    format!("sfs create on {n} hom-ref records of one sample followed by 3 het and 2 hom-alt records: {} {:?}, expected {expect:?}", o.status_str(), o.stdout_str()),
+                    J::obj([("kind", J::s("c01-many-records")), ("records", J::u(n + 5))]),
+                );
+            }
+        }
+        let _ = std::fs::remove_file(&path);
+        rep.part(Part {
+            name: "cli: 2^24 + 4 records in one cell".into(),
+            evaluations: 1,
+            nontrivial: 1,
+            note: "16 777 220 hom-ref records of one sample, then 3 het and 2 hom-alt: the spectrum is 16777220 3 2 (a counter of 24 significant bits stops at 16 777 216)".into(),
+            exhaustive: true,
+            extra: vec![],
         });
     }
     {
